@@ -31,7 +31,8 @@ def encode_msg_frame(action, specifier=None, data=None):
     action (and optional specifier) are str strings,
     data may be an json-yfied python object"""
     msg = (action, specifier or '', '' if data is None else json.dumps(data))
-    return ' '.join(msg).strip().encode('utf-8') + EOL
+    # remove only the blanks added for an empty specifier / data
+    return ' '.join(msg).strip(' ').encode('utf-8') + EOL
 
 
 def get_msg(_bytes):
